@@ -180,7 +180,7 @@ func RunC05M1(c *core.Ctx) {
 // single-goroutine M1 program: "the only goroutine is committed to its own
 // full queue" is the verdict, no clock involved.
 func RunC05Constructor(c *core.Ctx, idx int) {
-	forms := []string{"class.MakeFromArray", "class.MakeFromSequence", "module.Queue(values)", "module.Queue(sequence)", "module.Queue(source)"}
+	forms := []string{"class.MakeFromArray", "class.MakeFromSequence", "module.Queue(values)", "module.Queue(sequence)", "module.Queue(source)", "module.Queue(capacity,values)"}
 	form := forms[idx%len(forms)]
 	n := idx / len(forms) // 0..64
 	vals := make([]int64, n)
@@ -191,6 +191,8 @@ func RunC05Constructor(c *core.Ctx, idx int) {
 	}
 	cs := map[string]any{"constructor": form, "initial_values": n}
 	var q col.QueueLike[int64]
+	capacity := 0
+	_ = capacity
 	if form == "module.Queue(source)" {
 		// the parser's scanner goroutine is outside the controlled scheduler: run free, decide by a stable dump
 		src := "[" + strings.Join(lits, ", ") + "](Queue)"
@@ -238,6 +240,14 @@ func RunC05Constructor(c *core.Ctx, idx int) {
 				q = mod.Queue[int64](vals)
 			case "module.Queue(sequence)":
 				q = mod.Queue[int64](col.List[int64](notation).MakeFromArray(vals))
+			case "module.Queue(capacity,values)":
+				// not a documented combination: whatever it builds, it must return
+				// (or panic), never block on the capacity it was given
+				capacity = 1 + n%3
+				func() {
+					defer func() { recover() }()
+					q = mod.Queue[int64](capacity, vals)
+				}()
 			}
 		}()
 		s.Run(1)
@@ -255,7 +265,11 @@ func RunC05Constructor(c *core.Ctx, idx int) {
 			return
 		}
 	}
-	if q == nil {
+	if q == nil || form == "module.Queue(capacity,values)" {
+		if form == "module.Queue(capacity,values)" {
+			c.Cover("constructor." + form + "(returns)")
+			c.Distinct(core.Mix(core.HashStr(form), uint64(n)))
+		}
 		return
 	}
 	if got := q.AsArray(); len(got) != n || (n > 0 && (got[0] != 0 || got[n-1] != int64(n-1))) || q.GetSize() != n || int(q.GetCapacity()) < n {
@@ -343,7 +357,7 @@ func stableBlock(fn string) (bool, string) {
 			}
 			head := strings.SplitN(g, "\n", 2)[0]
 			parked := false
-			for _, st := range []string{"[chan send", "[chan receive", "[sync.Mutex.Lock", "[semacquire", "[sync.WaitGroup.Wait", "[select", "[sync.Cond.Wait"} {
+			for _, st := range []string{"[chan send", "[chan receive", "[sync.Mutex.Lock", "[sync.RWMutex", "[semacquire", "[sync.WaitGroup.Wait", "[select", "[sync.Cond.Wait"} {
 				if strings.Contains(head, st) {
 					parked = true
 				}
@@ -415,7 +429,13 @@ func m2jitter(kind uint8, q any) {
 
 // RunC04M2: an epoch of a larger program on the real scheduler with recorded
 // stamps; same offline checkers.
-func RunC04M2(c *core.Ctx, idx int) {
+func RunC04M2(c *core.Ctx, idx int) { runM2(c, idx, false) }
+
+// RunC05M2: the same epochs for C05: only termination (no deadlock, no panic)
+// is reported.
+func RunC05M2(c *core.Ctx, idx int) { runM2(c, idx, true) }
+
+func runM2(c *core.Ctx, idx int, onlyLiveness bool) {
 	if realSchedulerDisabled(c) {
 		return
 	}
@@ -509,6 +529,11 @@ func RunC04M2(c *core.Ctx, idx int) {
 					o.Empty = q.IsEmpty()
 					h.RetOp(o)
 				}
+				if k%2 == 0 {
+					o := h.CallOp(role, "string", "")
+					_ = fmt.Sprint(q)
+					h.RetOp(o)
+				}
 				runtime.Gosched()
 			}
 		})
@@ -542,6 +567,11 @@ func RunC04M2(c *core.Ctx, idx int) {
 		return
 	}
 	final := q.AsArray()
+	if onlyLiveness {
+		c.Cover("m2.epochs-terminated")
+		c.Distinct(core.HashStr(strings.Join(h.Strings(), "|")))
+		return
+	}
 	for _, f := range CheckQueueHistory(h, capa, final, q.GetSize(), q.IsEmpty()) {
 		if strings.HasPrefix(f.Sig, "inconclusive/") {
 			c.Inconclusive(f.Msg)
